@@ -113,7 +113,7 @@
     clause of the monitor on the real Statement, repaired). *)
 From Coq Require Import List ZArith PArith Bool.
 From KaiV Require Import Model.Res Model.Status Model.AMap Model.Node Model.NodeSpec Model.Session Model.SessionSpec
-  Model.SessionErase Proofs.Node Proofs.Session Proofs.SessionLog Proofs.SessionErase.
+  Model.SessionErase Model.SessionClaims Proofs.Node Proofs.Session Proofs.SessionLog Proofs.SessionErase Proofs.SessionClaims.
 Import ListNotations.
 
 (** ** 1. Rollback to a checkpoint *)
@@ -585,3 +585,129 @@ Theorem C13_erasure_refused_eviction_before_repair :
   /\ option_map (fun p => (p_status p, p_groups p)) (get_pod (Session.run fail_first w8_init w8_prog) 4) = Some (Running, [8%positive]).
 Proof. exact erasure_refused_eviction_before_repair. Qed.
 Print Assumptions C13_erasure_refused_eviction_before_repair.
+
+(** * Resource claims (Model/SessionClaims.v, proofs in Proofs/SessionClaims.v)
+
+    The claim bookkeeping under the same commands: every pod's ResourceClaimInfo (pod claim -> recorded allocation),
+    the DRA plugin's claim tracker (allocation and ReservedFor of every claim), the allocate / deallocate handlers of
+    pkg/scheduler/plugins/dynamicresources and what Statement.Evict / Pipeline save and unevict / unpipeline give
+    back.  [crun VS false orc fails] runs a program on the store of VALUES - every save and every restore of a pod's
+    ResourceClaimInfo copies, the code since 2da68db - with the handlers as they are; [orc] is the structured
+    allocator, an arbitrary function (run number, allocated devices, node, claim) -> devices or failure; [fails] the
+    Cache failures of Commit.  [coherent]: ReservedFor sets are sorted, empty exactly for unallocated claims; a
+    pod in a claim's ReservedFor references the claim and has recorded its allocation.  [cwf_from]: the status
+    preconditions of [wf_cmd] on this machine's own pod table (open statements: no Commit, no Convert) plus
+    [mem_ok] at every placement and un-eviction: the record the allocate handler is going to use does not
+    contradict the tracker.  [claims_same x y]: same pods (status, NodeName, nodes holding a copy), same tracker
+    record of every claim, same record in every pod that holds the claim. *)
+
+(** Rollback to an outstanding checkpoint gives back the claims as they were when the checkpoint was taken - for
+    every allocator, every coherent session and every well-formed open statement: evictions of only consumers and of
+    sharers, un-evictions by Unevict and by Pipeline onto the own node (also of evictions made before the
+    checkpoint), re-evictions, placements of pending pods with unallocated or shared claims (the allocator is
+    asked), evicted pods nominated on other nodes, nested checkpoints *)
+Theorem C13_claims_rollback_restores : forall orc fails (S : cst vstore rci) prog cp,
+  c_log S = [] -> c_saved S = [] -> c_stuck S = false -> coherent S = true ->
+  cwf_from orc fails [] S (prog ++ [Rollback cp]) = true ->
+  exists x, cstate_at orc fails S prog cp = Some x
+            /\ claims_same x (crun VS false orc fails S (prog ++ [Rollback cp])).
+Proof. exact claims_rollback_restores_stmt. Qed.
+Print Assumptions C13_claims_rollback_restores.
+
+Theorem C13_claims_discard_restores : forall orc fails (S : cst vstore rci) prog,
+  c_log S = [] -> c_saved S = [] -> c_stuck S = false -> coherent S = true ->
+  cwf_from orc fails [] S (prog ++ [Discard]) = true ->
+  claims_same S (crun VS false orc fails S (prog ++ [Discard])).
+Proof. exact claims_discard_restores_stmt. Qed.
+Print Assumptions C13_claims_discard_restores.
+
+(** Evict p (p not Releasing) followed by Unevict p, or by Pipeline of p onto a node that holds it: the claims are
+    as before the eviction *)
+Theorem C13_claims_unevict_restores : forall orc fails (S : cst vstore rci) p,
+  c_log S = [] -> c_saved S = [] -> c_stuck S = false -> coherent S = true ->
+  (match alookup p (c_pods S) with Some x => status_eqb (cp_stat x) Releasing | None => false end) = false ->
+  cwf_cmd [] S (Evict p) = true ->
+  claims_same S (crun VS false orc fails S [Evict p; Unevict p])
+  /\ forall n x, alookup p (c_pods S) = Some x -> pmem n (cp_on x) = true ->
+       claims_same S (crun VS false orc fails S [Evict p; Pipeline p n None false]).
+Proof. exact claims_unevict_restores_stmt. Qed.
+Print Assumptions C13_claims_unevict_restores.
+
+(** finding C13-undo-aliases-saved-resource-claims (fixed, 2da68db), on the heap store ([HS shallow alias]: map and
+    entry objects with addresses).  World [w_h] / [w_v]: node 31 has devices 21 22 23; pod 1 runs there and is the
+    only consumer of claim 11 on device 22 (21 is free); pod 4 is pending with the unallocated claim 13.  With the
+    restore that hands the operation's saved map to the pod ([HS false true], the code before the repair)
+    [Evict 1; Unevict 1; Discard] leaves claim 11 on device 21 and pod 1 recording 21, and a pod placed next is
+    handed device 22; with the restore that copies ([HS false false], the code; and the store of values) claim 11
+    stays on 22 and the next pod gets 21.  The program meets the hypotheses of [C13_claims_discard_restores] *)
+Theorem C13_claims_discard_moves_claim_before_2da68db :
+  let prog := [Evict 1; Unevict 1; Discard]%positive in
+  claim_of (crun (HS false true) false w_orc nofail_c w_h prog) 11 = Some (Some [21%positive], [1%positive])
+  /\ record_of (HS false true) (crun (HS false true) false w_orc nofail_c w_h prog) 1 11 = Some (Some [21%positive])
+  /\ claim_of (crun (HS false false) false w_orc nofail_c w_h prog) 11 = Some (Some [22%positive], [1%positive])
+  /\ claim_of (crun VS false w_orc nofail_c w_v prog) 11 = Some (Some [22%positive], [1%positive])
+  /\ coherent w_v = true /\ cwf_from w_orc nofail_c [] w_v prog = true
+  /\ claim_of (crun (HS false true) false w_orc nofail_c w_h (prog ++ [Allocate 4 31 None])%positive) 13 = Some (Some [22%positive], [4%positive])
+  /\ claim_of (crun (HS false false) false w_orc nofail_c w_h (prog ++ [Allocate 4 31 None])%positive) 13 = Some (Some [21%positive], [4%positive]).
+Proof. exact claims_discard_moves_claim_before_2da68db. Qed.
+Print Assumptions C13_claims_discard_moves_claim_before_2da68db.
+
+(** the SHALLOW-COPY variant ([HS true _]: Statement.Evict / Pipeline save maps.Clone of the pod's map - the saved
+    entry IS the live entry; NOT the code, the seeded regression C13-3): the deallocate handler wipes the shared
+    entry in place and [Evict 1; Discard], [Checkpoint; Evict 1; Rollback], [Evict 1; Unevict 1] all move claim 11
+    from device 22 to device 21, whatever the restore does; with the deep copy it stays on 22 *)
+Theorem C13_claims_shallow_save_moves_claim :
+  let prog := [Evict 1; Discard]%positive in
+  claim_of (crun (HS true false) false w_orc nofail_c w_h prog) 11 = Some (Some [21%positive], [1%positive])
+  /\ claim_of (crun (HS true true) false w_orc nofail_c w_h prog) 11 = Some (Some [21%positive], [1%positive])
+  /\ claim_of (crun (HS false false) false w_orc nofail_c w_h prog) 11 = Some (Some [22%positive], [1%positive])
+  /\ claim_of (crun (HS true false) false w_orc nofail_c w_h [Checkpoint; Evict 1; Rollback 0]%positive) 11 = Some (Some [21%positive], [1%positive])
+  /\ claim_of (crun (HS true false) false w_orc nofail_c w_h [Evict 1; Unevict 1]%positive) 11 = Some (Some [21%positive], [1%positive]).
+Proof. exact claims_shallow_save_moves_claim. Qed.
+Print Assumptions C13_claims_shallow_save_moves_claim.
+
+(** finding C13-stale-claim-record (known), on the code as it is: pods 5 and 6 are pending and share the unallocated
+    claim 14.  [Allocate 5 31; Allocate 6 31; Discard] is well-formed and restores the claims in the sense of
+    [claims_same] - but pod 6, which holds nothing, still records device 21 (pod 5 records nothing), and
+    [Allocate 6 32] afterwards assumes claim 14 on device 21 of node 31 for a pod placed on node 32 ([c_stale]: the
+    allocate handler used a record that is not the claim's present allocation); without the abandoned part pod 6
+    gets device 24 of node 32.  An abandoned scenario decides a later allocation: erasure does NOT hold for claims *)
+Theorem C13_claims_stale_record_after_abandoned_placement :
+  let ab := [Allocate 5 31 None; Allocate 6 31 None; Discard]%positive in
+  coherent w_v = true /\ cwf_from w_orc nofail_c [] w_v ab = true
+  /\ claims_same w_v (crun VS false w_orc nofail_c w_v ab)
+  /\ record_of VS (crun VS false w_orc nofail_c w_v ab) 6 14 = Some (Some [21%positive])
+  /\ record_of VS (crun VS false w_orc nofail_c w_v ab) 5 14 = Some None
+  /\ claim_of (crun VS false w_orc nofail_c w_v (ab ++ [Allocate 6 32 None])%positive) 14 = Some (Some [21%positive], [6%positive])
+  /\ claim_of (crun VS false w_orc nofail_c w_v [Allocate 6 32 None]%positive) 14 = Some (Some [24%positive], [6%positive])
+  /\ c_stale (crun VS false w_orc nofail_c w_v (ab ++ [Allocate 6 32 None])%positive) = true
+  /\ c_stale (crun VS false w_orc nofail_c w_v ab) = false.
+Proof. exact claims_stale_record_after_abandoned_placement. Qed.
+Print Assumptions C13_claims_stale_record_after_abandoned_placement.
+
+(** the restore statement WITHOUT [mem_ok] is refuted on the code as it is: once a stale record has overridden the
+    tracker (claim 14 on device 21 although its other consumer recorded 24), [Checkpoint; Evict 5; Rollback] leaves
+    claim 14 on device 24 - not where it was at the checkpoint; the program leaves [cwf_from] exactly at the
+    placement that uses the stale record *)
+Theorem C13_claims_rollback_refuted_with_stale_record :
+  let pre := [Allocate 5 31 None; Allocate 6 31 None; Discard; Allocate 5 32 None; Allocate 6 32 None; Checkpoint]%positive in
+  claim_of (crun VS false w_orc nofail_c w_v pre) 14 = Some (Some [21%positive], [5; 6]%positive)
+  /\ claim_of (crun VS false w_orc nofail_c w_v (pre ++ [Evict 5; Rollback 2])%positive) 14 = Some (Some [24%positive], [5; 6]%positive)
+  /\ cwf_from w_orc nofail_c [] w_v (firstn 4 pre) = true
+  /\ cwf_from w_orc nofail_c [] w_v (firstn 5 pre) = false.
+Proof. exact claims_rollback_refuted_with_stale_record. Qed.
+Print Assumptions C13_claims_rollback_refuted_with_stale_record.
+
+(** non-vacuity: [Checkpoint; Evict 1; Allocate 4 on node 31; Pipeline 1 to node 32; Evict 2; Unevict 2] meets the
+    hypotheses of [C13_claims_rollback_restores]; meanwhile claim 11 moved to device 24 of node 32 and claim 13 got
+    device 21; after Rollback 0 claim 11 is on device 22 with consumer 1 and claim 13 is unallocated *)
+Theorem C13_claims_nonvacuous :
+  let prog := [Checkpoint; Evict 1; Allocate 4 31 None; Pipeline 1 32 None false; Evict 2; Unevict 2]%positive in
+  c_log w_v = [] /\ c_saved w_v = [] /\ c_stuck w_v = false /\ coherent w_v = true
+  /\ cwf_from w_orc nofail_c [] w_v (prog ++ [Rollback 0]) = true
+  /\ claim_of (crun VS false w_orc nofail_c w_v prog) 11 = Some (Some [24%positive], [1%positive])
+  /\ claim_of (crun VS false w_orc nofail_c w_v prog) 13 = Some (Some [21%positive], [4%positive])
+  /\ claim_of (crun VS false w_orc nofail_c w_v (prog ++ [Rollback 0])) 11 = Some (Some [22%positive], [1%positive])
+  /\ claim_of (crun VS false w_orc nofail_c w_v (prog ++ [Rollback 0])) 13 = Some (None, []).
+Proof. exact claims_nonvacuous. Qed.
+Print Assumptions C13_claims_nonvacuous.
